@@ -26,10 +26,15 @@ def check(ctx):
         scen = [["live-c06", 24, 200], ["live-c09", 12, 120], ["live-c11", 16, 60], ["live-c12", 16, 10], ["live-c13", 8]]
     nruns, nraces, sigs = 0, 0, {}
     reps_total = 2 if thorough else 1
+    # every scenario twice: with the hook function installed (gates steer the schedules of MC_Conn's counterexamples) and without
+    # it and with no-op callbacks - the hook function and the recorder take mutexes, which orders the server's goroutines at every
+    # hook point and hides unsynchronised accesses from the detector
     for rep_i in range(reps_total):
-        for sc in scen:
-            tr = os.path.join(ctx.scratch, "c18_%s_%d.ndjson" % (sc[0], rep_i))
+        for sc, quiet in [(x, q) for x in scen for q in (False, True)]:
+            tr = os.path.join(ctx.scratch, "c18_%s_%d_%s.ndjson" % (sc[0], rep_i, "quiet" if quiet else "hooks"))
             env = {"GORACE": "halt_on_error=0 exitcode=0 history_size=5", "VERIF_SEED": str(ctx.seed + rep_i)}
+            if quiet:
+                env["VERIF_NOHOOKS"] = "1"
             r = ctx.vh(sc + [tr], timeout=1800, race=True, env=env)
             nruns += 1
             if r.returncode != 0 and "DATA RACE" not in r.stderr:
@@ -53,14 +58,14 @@ def check(ctx):
                             break
                 sig = "data-race " + " <-> ".join(sorted(set(pair)) or ["?"])
                 sigs[sig] = sigs.get(sig, 0) + 1
-                ctx.violation(sig, "scenario %s: %s" % (sc[0], text[:1500]), {"kind": sc[0], "report": text[:3000]})
+                ctx.violation(sig, "scenario %s%s: %s" % (sc[0], " (no hooks)" if quiet else "", text[:1500]), {"kind": sc[0], "quiet": quiet, "report": text[:3000]})
     ctx.cov["evaluations"] = nruns
     ctx.cov["distinct_nontrivial"] = max(2, nruns)
     ctx.cov["race_reports"] = nraces
     ctx.cov["race_signatures"] = sigs
     ctx.cov["samples"] = [{"scenario": s[0], "args": s[1:]} for s in scen]
     ctx.cov["rule"] = ("each evaluation is one live scenario run (conversation, stability, registry, command and disconnect drivers of C06, C09, C11, C12, "
-                       "C13, with their gates and seeded timing, many connections in parallel) of a harness and repository built with -race; distinct = "
+                       "C13, with their gates and seeded timing, many connections in parallel; each with the hook function and without any hook or callback work) of a harness and repository built with -race; distinct = "
                        "distinct (scenario, seed) runs; a report naming a frame of service/attachment/protocol is a violation")
     ctx.assumptions += ["memory accesses are observed by the Go race detector (the only observer of them); the specification supplies the schedules "
                         "and the ownership argument (MC_Conn: objects change hands only through channel operations)",
